@@ -1136,9 +1136,6 @@ class Schematic:
         """
         r  = source.r
 
-        if (sourcecol == sinkcol):
-            sinkcol -= 1
-            
         if (debug):
             print('Create feedback', sourcecol, sinkcol)
     
